@@ -892,3 +892,187 @@ M('c09-twin-eod-helper', 'C09', 'silent',
         return self.EOD is not None
 
     def return_all(self):''', 1))
+
+# ---------------------------------------------------------------- C04
+M('c04-write-final-path-directly', 'C04', 'fire:R4.1',
+  (DS, '''        final_path = os.path.join(self.meta_dir, id+'.meta')
+        AioFile(final_path, self.tmp_dir).pickle_dump(meta)''',
+   '''        final_path = os.path.join(self.meta_dir, id+'.meta')
+        with open(final_path, 'wb') as f:
+            f.write(pickle.dumps(meta, pickle.HIGHEST_PROTOCOL))''', 1))
+M('c04-rename-before-writes', 'C04', 'fire:R4.1',
+  (DS, '''        try:
+            while True:
+                ret = self._write_piece(fd, data_view, data_len, offset)
+                offset += ret
+                if offset >= data_len:
+                    break
+            os.rename(filename, self.path)''', '''        try:
+            os.rename(filename, self.path)
+            while True:
+                ret = self._write_piece(fd, data_view, data_len, offset)
+                offset += ret
+                if offset >= data_len:
+                    break''', 1))
+M('c04-rename-in-finally', 'C04', 'fire:R4.1',
+  (DS, '''            os.rename(filename, self.path)
+        finally:
+            os.close(fd)''', '''        finally:
+            os.rename(filename, self.path)
+            os.close(fd)''', 1))
+M('c04-single-short-write', 'C04', 'fire:R4.1',
+  (DS, '''            while True:
+                ret = self._write_piece(fd, data_view, data_len, offset)
+                offset += ret
+                if offset >= data_len:
+                    break
+            os.rename''', '''            ret = self._write_piece(fd, data_view, data_len, offset)
+            offset += ret
+            os.rename''', 1))
+M('c04-tempfile-in-final-dir', 'C04', 'fire:R4.1',
+  (DS, '''        fd, filename = mkstemp(dir=self.tmp_dir)''',
+   '''        fd, filename = mkstemp(dir=os.path.dirname(self.path))''', 1))
+M('c04-meta-before-env', 'C04', 'fire:R4.2',
+  (DS, '''                self.ops.write_env(id, envelope)
+                self.ops.write_meta(id, meta)''', '''                self.ops.write_meta(id, meta)
+                self.ops.write_env(id, envelope)''', 1))
+M('c04-id-returned-before-meta', 'C04', 'fire:R4.2',
+  (DS, '''                self.ops.write_env(id, envelope)
+                self.ops.write_meta(id, meta)
+                log.write(id, envelope)
+                return id''', '''                self.ops.write_env(id, envelope)
+                gevent.spawn(self.ops.write_meta, id, meta)
+                log.write(id, envelope)
+                return id''', 1))
+M('c04-load-no-per-id-try', 'C04', 'fire:R4.4',
+  (DS, '''            try:
+                meta = self.ops.read_meta(id)
+                yield (meta['timestamp'], id)
+            except OSError:
+                logging.log_exception(__name__, queue_id=id)''',
+   '''            meta = self.ops.read_meta(id)
+            yield (meta['timestamp'], id)''', 1))
+M('c04-load-handler-reraises', 'C04', 'fire:R4.4',
+  (DS, '''            except OSError:
+                logging.log_exception(__name__, queue_id=id)''',
+   '''            except OSError:
+                logging.log_exception(__name__, queue_id=id)
+                raise''', 1))
+M('c04-remove-keeps-env', 'C04', 'fire:R4.5',
+  (DS, '''        self.ops.delete_env(id)
+        self.ops.delete_meta(id)
+        log.remove(id)''', '''        self.ops.delete_meta(id)
+        log.remove(id)''', 1))
+M('c04-delete-not-tolerant', 'C04', 'fire:R4.5',
+  (DS, '''        env_path = os.path.join(self.env_dir, id+'.env')
+        try:
+            os.remove(env_path)
+        except OSError:
+            pass''', '''        env_path = os.path.join(self.env_dir, id+'.env')
+        os.remove(env_path)''', 1))
+M('c04-twin-load-helper', 'C04', 'silent',
+  (DS, '''            try:
+                meta = self.ops.read_meta(id)
+                yield (meta['timestamp'], id)
+            except OSError:
+                logging.log_exception(__name__, queue_id=id)''',
+   '''            try:
+                meta = self.ops.read_meta(id)
+            except (IOError, OSError):
+                logging.log_exception(__name__, queue_id=id)
+                continue
+            yield (meta['timestamp'], id)''', 1))
+
+# ---------------------------------------------------------------- C10
+CL = 'slimta/smtp/client.py'
+M('c10-pop-from-back', 'C10', 'fire:F1',
+  (CL, '''                reply = self.reply_queue.pop(0)''',
+   '''                reply = self.reply_queue.pop()''', 1))
+M('c10-relay-touches-queue', 'C10', 'fire:F1',
+  (RC, '''        self.client._flush_pipeline()''',
+   '''        self.client._flush_pipeline()
+        del self.client.reply_queue[:]''', 1))
+M('c10-rcptto-no-reply-queued', 'C10', 'fire:F2',
+  (CL, '''        rcptto = Reply(command=b'RCPT')
+        self.reply_queue.append(rcptto)
+
+        command = b''.join((b'RCPT TO:<', self._encode(address), b'>'))''',
+   '''        rcptto = Reply(command=b'RCPT')
+
+        command = b''.join((b'RCPT TO:<', self._encode(address), b'>'))''', 1))
+M('c10-mailfrom-double-append', 'C10', 'fire:F2',
+  (CL, '''        if auth is not None and 'AUTH' in self.extensions:
+            authed = b'<>' if auth is False else self._xtext(auth)
+            command += b' AUTH=' + authed''', '''        if auth is not None and 'AUTH' in self.extensions:
+            authed = b'<>' if auth is False else self._xtext(auth)
+            command += b' AUTH=' + authed
+            self.reply_queue.append(mailfrom)''', 1))
+M('c10-lmtp-reply-for-rejected-rcpt', 'C10', 'fire:F2',
+  (CL, '''        for address, rcptto_reply in self.rcpttos:
+            if rcptto_reply.code.startswith('2'):
+                data_reply = Reply(command=b'[SEND_DATA]')
+                self.reply_queue.append(data_reply)
+                ret.append((address, data_reply))
+        self.rcpttos = []
+
+        data_sender = DataSender(*data)''', '''        for address, rcptto_reply in self.rcpttos:
+            data_reply = Reply(command=b'[SEND_DATA]')
+            self.reply_queue.append(data_reply)
+            ret.append((address, data_reply))
+        self.rcpttos = []
+
+        data_sender = DataSender(*data)''', 1))
+M('c10-custom-command-no-flush', 'C10', 'fire:F3',
+  (CL, '''        self.io.send_command(command)
+
+        self._flush_pipeline()
+
+        return custom''', '''        self.io.send_command(command)
+
+        return custom''', 1))
+M('c10-rcptto-never-flushes', 'C10', 'fire:F3',
+  (CL, '''        command = b''.join((b'RCPT TO:<', self._encode(address), b'>'))
+        self.io.send_command(command)
+
+        if 'PIPELINING' not in self.extensions:
+            self._flush_pipeline()''', '''        command = b''.join((b'RCPT TO:<', self._encode(address), b'>'))
+        self.io.send_command(command)''', 1))
+M('c10-auth-without-flush', 'C10', 'fire:F3',
+  (CL, '''        self._flush_pipeline()
+        if 'AUTH' not in self.extensions:''', '''        if 'AUTH' not in self.extensions:''', 1))
+M('c10-drain-reads-twice', 'C10', 'fire:F4',
+  (CL, '''            reply.recv(self.io)
+            if reply.is_error():
+                self.last_error = reply''', '''            reply.recv(self.io)
+            if reply.code == '250' and reply.message.endswith('-'):
+                reply.recv(self.io)
+            if reply.is_error():
+                self.last_error = reply''', 1))
+M('c10-drain-before-flush', 'C10', 'fire:F4',
+  (CL, '''    def _flush_pipeline(self):
+        self.io.flush_send()
+        while True:''', '''    def _flush_pipeline(self):
+        while True:''', 1))
+M('c10-lmtp-rset-keeps-rcpttos', 'C10', 'fire:F5',
+  (CL, '''        reply = super(LmtpClient, self).rset()
+        self.rcpttos = []
+        return reply''', '''        reply = super(LmtpClient, self).rset()
+        return reply''', 1))
+M('c10-lmtp-senddata-keeps-rcpttos', 'C10', 'fire:F5',
+  (CL, '''                ret.append((address, data_reply))
+        self.rcpttos = []
+
+        data_sender = DataSender(*data)''', '''                ret.append((address, data_reply))
+
+        data_sender = DataSender(*data)''', 1))
+M('c10-twin-flush-helper', 'C10', 'silent',
+  (CL, '''        self.io.send_command(command)
+
+        self._flush_pipeline()
+
+        return custom''', '''        self.io.send_command(command)
+        self._sync()
+        return custom
+
+    def _sync(self):
+        self._flush_pipeline()''', 1))
